@@ -9,6 +9,15 @@
 (*   T    the kind of the object, fixed during a history:                  *)
 (*        "Int" "Long" "Float" "Double" "String" (typed lists), "Linked",  *)
 (*        "Abs" (model checking over abstract integer elements)            *)
+(*   held what the caller still holds of the things calls handed out or    *)
+(*        were handed in: held[h] is the value the h-th retained array     *)
+(*        (ToArray), index slice (Sorting), list object (Filtering result, *)
+(*        AddAll argument, list read back from the wire form) or argument  *)
+(*        array (AddAllArray) must have.  A list is a sequence of VALUES:  *)
+(*        whatever it hands out is a snapshot and whatever it is handed is *)
+(*        copied -- no call on the list changes a retained thing, and      *)
+(*        writing into a retained thing changes neither the list nor any   *)
+(*        other retained thing (no aliasing of the backing array).         *)
 (*                                                                         *)
 (* Element representation (Bytes.tla): Int/Long = 8-byte two's complement, *)
 (* Float/Double = IEEE bit pattern (4/8 bytes), String = UTF-8 bytes.      *)
@@ -32,15 +41,16 @@ EXTENDS Bytes, TLC
 
 DX == INSTANCE DataX WITH buf <- <<>>, written <- 0, prog <- <<>>, rpos <- 0, rd <- <<>>
 
-VARIABLES xs, T
-vars == <<xs, T>>
+VARIABLES xs, T, held
+vars == <<xs, T, held>>
+lvars == <<xs, T>>        \* the list itself
 
 TypedKinds == {"Int", "Long", "Float", "Double", "String"}
 Kinds == TypedKinds \cup {"Linked", "Abs"}
 Width == [Int |-> 8, Long |-> 8, Float |-> 4, Double |-> 8]
 
-Init == xs = <<>> /\ T = "Abs"
-InitWith(t) == xs = <<>> /\ T = t
+Init == xs = <<>> /\ T = "Abs" /\ held = <<>>
+InitWith(t) == xs = <<>> /\ T = t /\ held = <<>>
 
 Size == Len(xs)
 \* i is an index of the code (0-based)
@@ -76,6 +86,30 @@ RemoveLast      == xs' = (IF xs = <<>> THEN xs ELSE SubSeq(xs, 1, Len(xs) - 1)) 
 Clear           == xs' = <<>> /\ UNCHANGED T
 FirstRes        == IF xs = <<>> THEN <<>> ELSE <<xs[1]>>
 LastRes         == IF xs = <<>> THEN <<>> ELSE <<xs[Len(xs)]>>
+
+\* ---- retained results and arguments (aliasing) ---------------------------
+\* The list actions above say nothing about `held`: a step conjoins exactly one of
+\* NoKeep (the caller retains nothing new: every retained thing keeps its value)
+\* and KeepAt(h, s) (the caller retains the thing the call returned / was given in
+\* slot h -- a new slot or one it reuses; its value is s; the others keep theirs).
+NoKeep == UNCHANGED held
+KeepAt(h, s) == /\ h \in 1..(Len(held) + 1)
+                /\ held' = IF h = Len(held) + 1 THEN Append(held, s) ELSE [held EXCEPT ![h] = s]
+IsHeld(h) == h \in 1..Len(held)
+\* the caller writes v into slot i (0-based) of the retained array / calls Set(i, v)
+\* on the retained list object: only that thing changes
+HeldWrite(h, i, v) == /\ IsHeld(h) /\ i >= 0 /\ i < Len(held[h])
+                      /\ held' = [held EXCEPT ![h] = [@ EXCEPT ![i + 1] = v]]
+                      /\ UNCHANGED lvars
+\* the caller calls Add(v) on the retained list object
+HeldAppend(h, v) == /\ IsHeld(h)
+                    /\ held' = [held EXCEPT ![h] = Append(@, v)]
+                    /\ UNCHANGED lvars
+\* the retained list object h and the list change roles (the calls that follow go
+\* to the former result / argument; the former list is now the retained object)
+SwapHeld(h) == /\ IsHeld(h)
+               /\ xs' = held[h] /\ held' = [held EXCEPT ![h] = xs]
+               /\ UNCHANGED T
 
 \* ---- wire form of a typed list ---------------------------------------------
 \* 3-byte big-endian count, then every element with the codec of its type:
@@ -145,6 +179,7 @@ NoChild(n) == [i \in 1..n |-> 0]
 \* ---- invariants ---------------------------------------------------------
 TypeOK == /\ T \in Kinds
           /\ DOMAIN xs = 1..Len(xs)
+          /\ DOMAIN held = 1..Len(held)
           /\ T \in DOMAIN Width => \A i \in 1..Len(xs) : Len(xs[i]) = Width[T]
 InvAll == TypeOK
 =============================================================================
